@@ -339,13 +339,9 @@ class TrigTime:
                 elif state_trig_ok:
                     return {"trigger_type": "state"}
 
-            _LOGGER.debug(
-                "trigger %s wait_until: watching vars %s",
-                ast_ctx.name,
-                state_trig_ident,
-            )
-            if len(state_trig_ident) > 0:
-                await State.notify_add(state_trig_ident, notify_q)
+        #
+        # parse everything first: nothing is subscribed until every argument has been accepted
+        #
         if event_trigger is not None:
             if isinstance(event_trigger, str):
                 event_trigger = [event_trigger]
@@ -356,13 +352,7 @@ class TrigTime:
                     logger_name=ast_ctx.get_logger_name(),
                 )
                 Function.install_ast_funcs(event_trig_expr)
-                try:
-                    event_trig_expr.parse(event_trigger[1], mode="eval")
-                except:
-                    if len(state_trig_ident) > 0:
-                        State.notify_del(state_trig_ident, notify_q)
-                    raise
-            Event.notify_add(event_trigger[0], notify_q)
+                event_trig_expr.parse(event_trigger[1], mode="eval")
         if mqtt_trigger is not None:
             if isinstance(mqtt_trigger, str):
                 mqtt_trigger = [mqtt_trigger]
@@ -373,13 +363,7 @@ class TrigTime:
                     logger_name=ast_ctx.get_logger_name(),
                 )
                 Function.install_ast_funcs(mqtt_trig_expr)
-                try:
-                    mqtt_trig_expr.parse(mqtt_trigger[1], mode="eval")
-                except:
-                    if len(state_trig_ident) > 0:
-                        State.notify_del(state_trig_ident, notify_q)
-                    raise
-            await Mqtt.notify_add(mqtt_trigger[0], notify_q, encoding=mqtt_trigger_encoding)
+                mqtt_trig_expr.parse(mqtt_trigger[1], mode="eval")
         if webhook_trigger is not None:
             if isinstance(webhook_trigger, str):
                 webhook_trigger = [webhook_trigger]
@@ -390,31 +374,43 @@ class TrigTime:
                     logger_name=ast_ctx.get_logger_name(),
                 )
                 Function.install_ast_funcs(webhook_trig_expr)
-                try:
-                    webhook_trig_expr.parse(webhook_trigger[1], mode="eval")
-                except:
-                    if len(state_trig_ident) > 0:
-                        State.notify_del(state_trig_ident, notify_q)
-                    raise
+                webhook_trig_expr.parse(webhook_trigger[1], mode="eval")
             if webhook_methods is None:
                 webhook_methods = {"POST", "PUT"}
-            Webhook.notify_add(webhook_trigger[0], webhook_local_only, webhook_methods, notify_q)
-
-        time0 = time.monotonic()
-
-        if __test_handshake__:
-            #
-            # used for testing to avoid race conditions
-            # we use this as a handshake that we are about to
-            # listen to the queue
-            #
-            State.set(__test_handshake__[0], __test_handshake__[1])
 
         # "now" in time specifications is fixed at the first evaluation, for the whole wait
         startup_time = None
         # the trigger time we are waiting for; it stays due if the wait is ended by a notification
         time_pending = None
         try:
+            #
+            # subscribing is covered by the finally below: a subscription that fails, or a
+            # cancellation while one is being made, releases the ones already made
+            #
+            if len(state_trig_ident) > 0:
+                _LOGGER.debug(
+                    "trigger %s wait_until: watching vars %s",
+                    ast_ctx.name,
+                    state_trig_ident,
+                )
+                await State.notify_add(state_trig_ident, notify_q)
+            if event_trigger is not None:
+                Event.notify_add(event_trigger[0], notify_q)
+            if mqtt_trigger is not None:
+                await Mqtt.notify_add(mqtt_trigger[0], notify_q, encoding=mqtt_trigger_encoding)
+            if webhook_trigger is not None:
+                Webhook.notify_add(webhook_trigger[0], webhook_local_only, webhook_methods, notify_q)
+
+            time0 = time.monotonic()
+
+            if __test_handshake__:
+                #
+                # used for testing to avoid race conditions
+                # we use this as a handshake that we are about to
+                # listen to the queue
+                #
+                State.set(__test_handshake__[0], __test_handshake__[1])
+
             while True:
                 ret = None
                 this_timeout = None
